@@ -21,12 +21,9 @@ open Corerad Corerad.Model.GroupQ
 open Corerad.Model.Group (LPc)
 
 /-- The source sends on `ipC` only inside a `select` that also watches `ctx.Done()`, at every
-    send site (regenerated; fails to build on a tree with a bare send), and the channel's
-    capacity is the one the model is instantiated with. -/
-theorem gen_sends_guarded : Gen.Advertise.ipcSendsGuarded = true ∧ Gen.Advertise.ipcSendSites = 2 := by
-  decide
-
-theorem gen_cap : Gen.Advertise.ipCCap = 16 := by decide
+    send site (regenerated; fails to build on a tree with a bare send). The channel's capacity
+    (`Gen.Advertise.ipCCap`, used by the driver) is immaterial: the theorems hold for any. -/
+theorem gen_sends_guarded : Gen.Advertise.ipcSendsGuarded = true := by decide
 
 /-- inductive invariant (repaired defer order, any `guarded`, any capacity) -/
 structure Inv (x : St) : Prop where
